@@ -182,7 +182,7 @@ def alpha_check(ctx, records):
 STRESS_NAMES = ["fooBar", "FooBar", "foo_bar", "FOO_BAR", "x", "X", "emit", "Emit", "myVal", "my_val", "tmpVal", "Node", "node", "i", "I", "countUp", "count_up", "aB", "a_b", "Ab"]
 
 
-def stress_program(r):
+def stress_program(r, rich=False):
     """a random scope tree over a small pool of names that the conventions map onto each other (fooBar / FooBar / foo_bar /
     FOO_BAR ...): assignments, defs, classes, loops, comprehensions, lambdas, global / nonlocal, reads before and after
     rebinding.  Valid Python; not meant to be executed."""
@@ -192,7 +192,16 @@ def stress_program(r):
         return r.choice(pool)
 
     def expr(depth):
-        k = r.randint(0, 7)
+        k = r.randint(0, 10 if rich else 7)
+        if k == 8:   # several generators: only the first iterable belongs to the enclosing scope
+            return f"[{name()} for {name()} in {name()} for {name()} in {name()}]"
+        if k == 9:
+            return f"{{{name()}: {name()} for {name()} in {name()} if {name()} for {name()} in {name()}}}"
+        if k == 10:
+            return f"sum({name()} for {name()} in [{name()}] for {name()} in {name()} if {name()})"
+        # (a comprehension nested in the element AND in the first iterable of another one was tried and dropped: CPython 3.12 inlines comprehensions, the
+        #  inner target becomes a hidden local of the function and the element's read of the same-named global raises UnboundLocalError - such a program
+        #  is outside the class the property speaks about, and a renaming that "repairs" it is reported as a change of binding structure)
         if k <= 2:
             return name()
         if k == 3:
@@ -240,6 +249,8 @@ def stress_program(r):
         src = "\n".join(block(0, "module", 0)) + "\n"
         try:
             compile(src, "<stress>", "exec")
+            if rich and " for " not in src:
+                continue
             return src
         except SyntaxError:
             continue
@@ -261,6 +272,21 @@ def stress_corpus():
     return _STRESS
 
 
+_STRESS_RICH = []
+
+
+def stress_corpus_rich():
+    """a second fixed corpus: the same scope trees with comprehensions of several generators, dict / generator forms and nested comprehensions"""
+    if not _STRESS_RICH:
+        import random
+        for seed in range(7100, 7103):
+            r = random.Random(seed)
+            for _ in range(200):
+                src = stress_program(r, rich=True)
+                _STRESS_RICH.append((oracles.sha(src), src, "rename-stress-rich"))
+    return _STRESS_RICH
+
+
 def task_apply(args):
     src, rules = args
     out = []
@@ -274,7 +300,7 @@ def task_apply(args):
 def alpha_suite(ctx):
     """static only, no execution: the renaming rules on many more programs, every pure renaming checked as in alpha_check"""
     s = Suite("rename-static", kind="oracle")
-    items = sweep.pick(stress_corpus(), ctx, ctx.n(500, len(stress_corpus())))
+    items = sweep.pick(stress_corpus(), ctx, ctx.n(500, len(stress_corpus()))) + stress_corpus_rich()
     items += sweep.pick(sweep.generated_corpus(), ctx, ctx.n(200, 3000)) + sweep.pick(sweep.example_corpus(), ctx, ctx.n(100, 1500))
     results = oracles.pmap(task_apply, [(src, RENAMING_RULES) for (_sha, src, _fam) in items])
     records = []
